@@ -227,8 +227,9 @@ def record_pipeline(b, world, intended, *, inner_fraction, ms=(0,), ks=(), radiu
                     part_rows.append(rows_of(pj.data, J_COLS) if pj is not None else [])
             P = []
             for p, rows, o, jr in zip(parts, prow, offs, part_rows):
-                P.append({'hist': hist_of(p.states, p.inner_states) if len(p.states) else [], 'rows': rows, 'offset': int(o), 'jumps': jr})
-            add('Split', k=k, m=m, parts=P)
+                P.append({'hist': hist_of(p.states, p.inner_states) if len(p.states) else [], 'rows': rows, 'offset': int(o), 'jumps': jr,
+                          'tframes': [len(p.trajectory), len(p.diff_trajectory)]})
+            add('Split', k=k, m=m, parts=P, tframes=[len(tr.trajectory), len(tr.diff_trajectory)])
             if 'Rates' in want and j is not None and k >= 2 and all(len(x['jumps']) > 0 for x in P):
                 df = j.rates(k)
                 denom = A * (T * traj.time_step) / k
